@@ -69,6 +69,20 @@ def make_material(m):
     raise ValueError("unknown material kind %s" % kind)
 
 
+ATTEMPTS = [0]
+
+
+def _counted(fn):
+    def f(*a, **k):
+        ATTEMPTS[0] += 1
+        return fn(*a, **k)
+    return f
+
+
+for _n in ("solve_python_1d", "solve_python_2d", "solve_python_3d"):
+    setattr(structural, _n, _counted(getattr(structural, _n)))
+
+
 def make_tube(c):
     tube = receiver.Tube(fl(c["r"]), fl(c["t"]), fl(c["h"]), c["nr"], c["nt"], c["nz"], T0=fl(c.get("T0", "0x0p+0")))
     times = np.array([fl(x) for x in c["times"]])
@@ -152,6 +166,7 @@ def run(case):
         solver.dump_state(tube, 0, state)
         dtop = [fl(d) for d in case["dtop"]]
         forces, stiffs, asyms, trials = [hx(state.force)], [hx(state.stiffness)], [0.0], {}
+        trial_attempts, step_attempts = {}, [0]
         probe = case.get("probe", [])
         if "pressure_load" in probe:
             out["pressure_load"] = pressure_probe(state)
@@ -160,9 +175,13 @@ def run(case):
         last = case.get("stop_at", len(dtop) - 1)
         for i in range(1, last + 1):
             for d in (case.get("trial") or {}).get(str(i), []):
+                ATTEMPTS[0] = 0
                 s2 = solver.solve(tube, i, state, fl(d))
                 trials.setdefault(str(i), []).append([hx(s2.force), hx(s2.stiffness)])
+                trial_attempts.setdefault(str(i), []).append(ATTEMPTS[0])
+            ATTEMPTS[0] = 0
             new = solver.solve(tube, i, state, dtop[i])
+            step_attempts.append(ATTEMPTS[0])
             solver.dump_state(tube, i, new)
             state = new
             forces.append(hx(state.force))
@@ -172,6 +191,8 @@ def run(case):
         out["stiffness"] = stiffs
         out["asym"] = asyms
         out["trials"] = trials
+        out["trial_attempts"] = trial_attempts      # per-increment solves each trial / accepted step needed (1 = no sub-increments)
+        out["step_attempts"] = step_attempts
         want = case.get("want")
         q = {}
         for f in FIELDS:
